@@ -64,7 +64,9 @@ func (n *Node) isLastOfHierarchy() bool {
 	}
 
 	lastIdx := len(n.parent.children) - 1
-	return n.index == n.parent.children[lastIdx].index
+	// compare the nodes themselves: index values are not unique across trees built with NewRoot/Add,
+	// because the package-level counter feeding them is reset by every From-Root call.
+	return n == n.parent.children[lastIdx]
 }
 
 const (
